@@ -23,7 +23,7 @@ from qfmt import Rq, Rlist
 TECHNIQUE = ("Coq proof (list sums, ring/field/lra, ln algebra) + Coq-Interval certified layered correspondence of every "
              "config-selectable likelihood model with the code on captured densities")
 
-HEADER = ("From Coq Require Import Reals List.\nFrom Interval Require Import Tactic.\n"
+HEADER = ("From Coq Require Import Reals List Lra.\nFrom Interval Require Import Tactic.\n"
           "From TFV Require Import Base.RBase Base.Tie Base.RSum Lik.NLL Lik.NLL_proofs.\nImport ListNotations.\nOpen Scope R_scope.\n")
 
 MODELS = ["default", "extended", "cfit", "cfit_cached", "cfit_extended", "cached_int", "cached_amp",
@@ -64,12 +64,13 @@ class Scenario:
     pass
 
 
-def make_scenario(ctx, rnd, sid, model, ngroup, gauss, clip=False):
+def make_scenario(ctx, rnd, sid, model, ngroup, gauss, clip=False, R=1):
     """write the sample files of one scenario and build its config dict"""
     d = os.path.join(ctx.dir, "s%03d" % sid)
     os.makedirs(d, exist_ok=True)
     s = Scenario()
     s.sid, s.model, s.ngroup, s.gauss, s.dir, s.clip = sid, model, ngroup, gauss, d, clip
+    s.R = R
     cfit = model in CFIT_LIKE
     data = {"dat_order": ["B", "C", "D"], "data": [], "phsp": []}
     s.wkind = rnd.choice(["unit", "pos", "mixed", "mixed"])
@@ -84,11 +85,17 @@ def make_scenario(ctx, rnd, sid, model, ngroup, gauss, clip=False):
         nd = rnd.randrange(sz[0], sz[1])
         nb = rnd.randrange(sz[2], sz[3])
         nm = rnd.randrange(sz[4], sz[5])
+        if R > 1:  # an event = R consecutive smeared samples; keep the number of samples small
+            nd = R * rnd.randrange(4, 9)
+            nb = R * rnd.randrange(1, 4)
         s.nd.append(nd); s.nm.append(nm); s.nb.append(nb if s.bgkind != "none" else 0)
         seed = rnd.randrange(1, 10 ** 6)
         f = os.path.join(d, "data%d.dat" % gi); np.savetxt(f, gen_p4(nd, seed)); data["data"].append([f])
         f = os.path.join(d, "phsp%d.dat" % gi); np.savetxt(f, gen_p4(nm, seed + 1)); data["phsp"].append([f])
-        w = gen_weights(rnd, nd, s.wkind)
+        w = gen_weights(rnd, nd // R, s.wkind)
+        if R > 1:  # per-sample weights: event weight x positive smearing weights (event sums stay away from 0)
+            ev = w if w is not None else [1.0] * (nd // R)
+            w = [round(e * rnd.uniform(0.3, 1.0), 3) for e in ev for _ in range(R)]
         if w is not None:
             f = os.path.join(d, "dw%d.dat" % gi); np.savetxt(f, np.array(w)); dw.append(f)
         v = gen_weights(rnd, nm, s.vkind)
@@ -103,6 +110,8 @@ def make_scenario(ctx, rnd, sid, model, ngroup, gauss, clip=False):
             for key, n in (("data_bg_value", nd), ("phsp_bg_value", nm), ("data_eff_value", nd), ("phsp_eff_value", nm)):
                 f = os.path.join(d, "%s%d.dat" % (key, gi))
                 np.savetxt(f, np.array([round(rnd.uniform(0.4, 1.6), 3) for _ in range(n)])); extra[key].append(f)
+    if R > 1:
+        data["resolution_size"] = R
     if dw:
         data["data_weight"] = dw
     if vw:
@@ -221,6 +230,7 @@ def capture_part(model_name, fcn, amp, raw, x):
     p.W = arr(fcn.weight); p.V = arr(fcn.mc_weight)
     p.f = arr(amp(fcn.data)); p.g = arr(amp(fcn.mcdata))
     p.ws, p.bgw, p.bgn, p.v = raw
+    p.R = 1
     n, m = len(p.W), len(p.V)
     if model_name in CFIT_LIKE:
         p.e = arr(fcn.data.get("eff_value", np.ones(n))); p.b = arr(fcn.data.get("bg_value", np.ones(n)))
@@ -240,6 +250,17 @@ def doc_value(model_name, p, fb=None):
     """independent NumPy evaluation of the DOCUMENTED formula on the captured densities (raw weights)"""
     w = np.array(list(p.ws) + (list(p.bgw) if p.bgw is not None else []))
     f = np.array(p.f); v = np.array(p.v); g = np.array(p.g)
+    R = getattr(p, "R", 1)
+    if R > 1:  # event = R consecutive samples: W_e = sum_j w_ej, density = sum_j w_ej f_ej / W_e, log per event
+        We = w.reshape(-1, R).sum(1)
+        a = We.sum() / (We * We).sum()
+        if model_name in ("default", "extended"):
+            fe = (w * f).reshape(-1, R).sum(1) / We
+            I = (v * g).sum() / v.sum()
+            return -a * ((We * np.log(fe)).sum() - We.sum() * (math.log(I) if model_name == "default" else I))
+        isig = (v * np.array(p.eg) * g).sum() / v.sum(); ibg = (v * np.array(p.bm)).sum() / v.sum()
+        pr = (1 - fb) * np.array(p.e) * f / isig + fb * np.array(p.b) / ibg
+        return -a * (We * np.log((w * pr).reshape(-1, R).sum(1) / We)).sum()
     a = w.sum() / (w * w).sum()
     if model_name in ("default", "cached_int", "cached_amp", "simple", "simple_clip"):
         return -a * ((w * np.log(f)).sum() - w.sum() * math.log((v * g).sum() / v.sum()))
@@ -354,10 +375,91 @@ def _part_goals(s, gi, pi, p, batch, fb, tag):
 
 
 def part_goals(s, gi, pi, p, batch, fb, tag):
+    if s.R > 1:
+        return part_goals_res(s, gi, pi, p, batch, fb, tag)
     if p.gradval is None:
         q = Part(); q.__dict__.update(p.__dict__); q.gradval = 0.0
         return [c for c in _part_goals(s, gi, pi, q, batch, fb, tag) if not c[0].endswith("_G")]
     return _part_goals(s, gi, pi, p, batch, fb, tag)
+
+
+RESF = "chunk chunk_fuel length firstn skipn concat app ev_weights ev_density_nz " + LISTF
+
+
+def part_goals_res(s, gi, pi, p, batch, fb, tag):
+    """goals W, V, C, G with resolution_size = R > 1 (models default, extended, cfit)"""
+    out = []
+    m, R = s.model, s.R
+    base = "%s_s%d_g%d_p%d" % (tag, s.sid, gi, pi)
+    W, V, f, g = p.W, p.V, p.f, p.g
+    wmax = max(abs(x) for x in W)
+    raw = np.array(list(p.ws) + (list(p.bgw) if p.bgw is not None else []))
+    rawe = raw.reshape(-1, R).sum(1)
+    a1 = math.fsum(rawe) / math.fsum(x * x for x in rawe)
+    bgexpr = Rlist(p.bgw) if (p.bgw is not None and s.bgkind != "noweight") else (
+        "(bg_const_weights %s %d)" % (Rq(s.wb), p.bgn) if s.bgkind == "noweight" else "[]")
+    RW = "blend bg_const_weights List.repeat alpha sqs " + RESF
+    stmt = lets(ws=Rlist(p.ws), bgw=bgexpr) + "(sqdist (concat (fcn_weight_res %d ws bgw)) %s <= %s)%%R" % (R, Rlist(W), Rq((2e-11 * wmax) ** 2))
+    tac = ("intros ws bgw; cbv [fcn_weight_res scale_res alpha_res]; "
+           + bound_frag("a1", "alpha (ev_weights (chunk %d (blend ws bgw)))" % R, a1, "a1, ws, bgw", RW)
+           + "unfold ws, bgw; cbv [sqdist %s]; %s" % (RW, IP))
+    out.append((base + "_W", stmt, tac, {"layer": "weights", "site": "Model.get_weight_data / FCN.__init__ (resolution_size)"}))
+    sv = math.fsum(p.v)
+    stmt = lets(v=Rlist(p.v)) + "(sqdist (mc_norm v) %s <= %s)%%R" % (Rlist(V), Rq((2e-11 * max(V)) ** 2))
+    tac = ("intros v; cbv [mc_norm]; " + bound_frag("sv", "rsum v", sv, "sv, v", "") + "unfold v; cbv [sqdist %s]; %s" % (LISTF, IP))
+    out.append((base + "_V", stmt, tac, {"layer": "mc_weights", "site": "FCN.__init__ mc_weight"}))
+    Wn = np.array(W); We = Wn.reshape(-1, R).sum(1)
+    aW = math.fsum(We) / math.fsum(x * x for x in We)
+    sw = float(Wn.sum())
+    I = float(np.dot(V, g))
+    CERT = "(1 / 1000000)"
+    CLIP = "clip_log_abs rmax rmin eps_clip"
+
+    def tol_of(y, terms):
+        return 1e-10 * (abs(y) + terms)
+
+    def dens_cert(extra_unfold):
+        return ("rewrite (ev_density_cert %s) by (first [ lra | (unfold W; cbv [shortfall rmax sqs %s %s]; %s) ]); " % (CERT, extra_unfold, RESF, IP))
+
+    a2frag = bound_frag("a2", "alpha (ev_weights (chunk %d W))" % R, aW, "a2, W", "alpha sqs " + RESF, rel=0, absd=1e-12)
+    if m in ("default", "extended"):
+        ext = "true" if m == "extended" else "false"
+        fe = (Wn * np.array(f)).reshape(-1, R).sum(1) / We
+        intf = I if m == "extended" else math.log(I)
+        scale = float(np.sum(np.abs(We * np.log(fe)))) + abs(sw * intf)
+        L4 = lets(W=Rlist(W), f=Rlist(f), V=Rlist(V), g=Rlist(g))
+        sc = "map (rscale a2) (chunk %d W)" % R
+        a3frag = bound_frag("a3", "rsum (concat (%s)) / rsum (sqs (ev_weights (%s)))" % (sc, sc), 1.0, "a3, W", "sqs " + RESF, rel=0, absd=1e-10)
+        stmt = L4 + le("nll_call_res %s (chunk %d W) (chunk %d f) V g" % (ext, R, R), p.call, tol_of(p.call, scale))
+        tac = ("intros W f V g; cbv [nll_call_res nll_base_res scale_res alpha_res]; " + a2frag + a3frag + dens_cert("")
+               + "rewrite map_clip_log_shortfall by (unfold W, f; cbv [shortfall rmax eps_clip %s]; %s); " % (RESF, IP)
+               + "unfold W, f, V, g; cbv [%s int_f]; %s" % (RESF, IP))
+        out.append((base + "_C", stmt, tac, {"layer": "call", "site": "Model.nll / BaseModel.nll (resolution_size)"}))
+        if p.gradval is not None:
+            stmt = L4 + le("nll_gradval_res %s (chunk %d W) (chunk %d f) V g" % (ext, R, R), p.gradval, tol_of(p.gradval, scale))
+            tac = ("intros W f V g; cbv [nll_gradval_res]; " + dens_cert("") + "rewrite map_clip_log_abs; unfold W, f, V, g; cbv [%s %s int_f]; %s" % (RESF, CLIP, IP))
+            out.append((base + "_G", stmt, tac, {"layer": "gradval", "site": "nll_grad_batch (value, resolution_size)"}))
+    else:  # cfit
+        sd = (np.array(p.e) * np.array(f)).tolist(); sg = (np.array(p.eg) * np.array(g)).tolist()
+        isig = float(np.dot(V, sg)); ibg = float(np.dot(V, p.bm))
+        pr = (1 - fb) * np.array(sd) / isig + fb * np.array(p.b) / ibg
+        pe = (Wn * pr).reshape(-1, R).sum(1) / We
+        scale = float(np.sum(np.abs(We * np.log(pe))))
+        L = lets(W=Rlist(W), s=Rlist(sd), b=Rlist(p.b), V=Rlist(V), sg=Rlist(sg), bm=Rlist(p.bm))
+        isf = bound_frag("isig", "rdot V sg", isig, "isig, V, sg", "")
+        ibf = bound_frag("ibg", "rdot V bm", ibg, "ibg, V, bm", "")
+        intro = "intros W s b V sg bm; "
+        stmt = L + le("cfit_call_res %s (chunk %d W) (chunk %d s) (chunk %d b) V sg bm" % (Rq(fb), R, R, R), p.call, tol_of(p.call, scale))
+        tac = (intro + "cbv [cfit_call_res scale_res alpha_res]; " + a2frag + isf + ibf
+               + "unfold W, s, b; cbv [ev_cfit_probs cfit_prob %s]; %s" % (RESF, IP))
+        out.append((base + "_C", stmt, tac, {"layer": "call", "site": "Model_cfit.nll (resolution_size)"}))
+        if p.gradval is not None:
+            stmt = L + le("cfit_gradval_res %s (chunk %d W) (chunk %d s) (chunk %d b) V sg bm" % (Rq(fb), R, R, R), p.gradval, tol_of(p.gradval, scale))
+            tac = (intro + "cbv [cfit_gradval_res]; " + isf + ibf + dens_cert("")
+                   + "rewrite map_clip_log_shortfall by (unfold W, s, b; cbv [shortfall rmax eps_clip sample_probs cfit_prob %s]; %s); " % (RESF, IP)
+                   + "unfold W, s, b; cbv [sample_probs cfit_prob %s]; %s" % (RESF, IP))
+            out.append((base + "_G", stmt, tac, {"layer": "gradval", "site": "Model_cfit.nll_grad_batch (value, resolution_size)"}))
+    return out
 
 
 def gauss_expr(cs):
@@ -397,6 +499,8 @@ def run_scenario(ctx, rnd, s, npoints, all_batches):
     ntot = [s.nd[gi] + s.nb[gi] for gi in range(s.ngroup)]
     N = max(ntot)
     batches = [1, 3, N - 1, N, N + 5]
+    if s.R > 1:  # batches must contain whole events
+        batches = sorted(set([s.R, 2 * s.R, N - s.R, N, N + 2 * s.R]))
     b0 = rnd.choice(batches)
     scale = 1.0
     if s.clip:  # bring the densities around the clip threshold 1e-6
@@ -421,6 +525,7 @@ def run_scenario(ctx, rnd, s, npoints, all_batches):
             for gi, fi in enumerate(fcns):
                 fb = s.fb[gi] if s.model in CFIT_LIKE else None
                 p = capture_part(s.model, fi, amp, raws[gi], x)
+                p.R = s.R
                 parts.append(p)
                 if bi == 0:
                     gl = part_goals(s, gi, pi, p, batch, fb, "b%d" % batch)
@@ -454,7 +559,8 @@ def run_scenario(ctx, rnd, s, npoints, all_batches):
                                 "weights": p.ws, "bg_weights": p.bgw, "mc_weights": p.v, "density_data": p.f, "density_mc": p.g,
                                 "nll_call": p.call, "nll_gradval": p.gradval, "documented": float(dv), "bg_frac": fb,
                                 "clip": s.clip})
-            ctx.count("model:" + s.model); ctx.count("batch:" + ("1" if batch == 1 else "3" if batch == 3 else "N-1" if batch == N - 1 else "N" if batch == N else "N+5"))
+            ctx.count("model:" + s.model); ctx.count("batch:" + (("1" if batch == 1 else "3" if batch == 3 else "N-1" if batch == N - 1 else "N" if batch == N else "N+5") if s.R == 1 else
+                                  ("R" if batch == s.R else "2R" if batch == 2 * s.R else "N-R" if batch == N - s.R else "N" if batch == N else "N+2R")))
             ctx.distinct.add((s.sid, pi, batch))
             if bi > 0:
                 continue
@@ -470,6 +576,7 @@ def run_scenario(ctx, rnd, s, npoints, all_batches):
                 c[3].update({"model": s.model, "batch": batch, "scenario": s.sid, "parts": [p.call for p in parts],
                              "constraints": cs, "impl": tot_call})
                 cases.append(c)
+    ctx.count("resolution_size:%d" % s.R)
     ctx.count("groups:%d" % s.ngroup); ctx.count("data_weights:" + s.wkind); ctx.count("bg:" + s.bgkind)
     ctx.count("mc_weights:" + s.vkind); ctx.count("gauss:%d" % len(s.gc))
     if s.clip:
@@ -493,6 +600,10 @@ def plan(ctx, rnd):
         sc.append((sid, "default", 3, True, False)); sid += 1
         sc.append((sid, "default", 1, False, True)); sid += 1   # densities around the clip threshold
         sc.append((sid, "simple_clip", 1, False, True)); sid += 1
+        # resolution_size > 1 (supported by the default/extended Model and by Model_cfit)
+        for m, ng, R in ((("default", 1, 2), ("cfit", 1, 3), ("extended", 1, 3), ("cfit", 2, 2)) if quick else
+                         (("default", 1, 2), ("default", 2, 3), ("extended", 1, 3), ("extended", 1, 2), ("cfit", 1, 3), ("cfit", 2, 2), ("cfit", 1, 2))):
+            sc.append((sid, m, ng, sid % 2 == 0, False, R)); sid += 1
     only = os.environ.get("VERIF_ONLY")  # debugging aid: restrict to some likelihood models
     if only:
         sc = [x for x in sc if x[1] in only.split(",")]
@@ -570,13 +681,14 @@ def _worker(args):
         tf.config.threading.set_inter_op_parallelism_threads(1)
     except RuntimeError:
         pass
-    sid, m, ngroup, gauss, clip = item
+    sid, m, ngroup, gauss, clip = item[:5]
+    R = item[5] if len(item) > 5 else 1
     acc = Acc(d, tier)
     srnd = random.Random(sseed)
     t0 = time.time()
     try:
         with contextlib.redirect_stdout(io.StringIO()):
-            s = make_scenario(acc, srnd, sid, m, ngroup, gauss, clip)
+            s = make_scenario(acc, srnd, sid, m, ngroup, gauss, clip, R)
             cs, rs = run_scenario(acc, srnd, s, 1 if tier == "quick" else 2, all_batches=((ngroup == 1 and m not in ("cached_int", "cached_amp", "cfit_cached")) or tier != "quick"))
         return {"item": item, "cases": cs, "records": rs, "dist": acc.dist, "distinct": acc.distinct, "evaluations": acc.evaluations,
                 "error": None, "dt": time.time() - t0, "fails": acc.fails}
@@ -605,7 +717,7 @@ def run(ctx):
         results = list(ex.map(_worker, items))
     results.sort(key=lambda r: r["item"][0])
     for r in results:
-        sid, m, ngroup, gauss, clip = r["item"]
+        sid, m, ngroup, gauss, clip = r["item"][:5]
         for k, v in r["dist"].items():
             ctx.count(k, v)
         ctx.distinct |= r["distinct"]
